@@ -506,8 +506,15 @@ func (h *history) apply(a []string) (violation, expected, got string) {
 				return "Search panicked", "", showOut(o)
 			}
 		}
-		n, _, perr := ref.ParseText(expr)
+		n, lst, perr := ref.ParseText(expr)
+		if lst == ref.LexOutOfDomain {
+			return "", "", "" // e.g. integers beyond int64: outside the domain of the reference model
+		}
 		if perr != nil {
+			// not a sentence: the one-shot Search and Compile must both say so, whatever the document is
+			if one.Err == nil || got.Err == nil || fresh.Compiled {
+				return "an ungrammatical expression is not rejected alike by the one-shot Search and by Compile", "error from both", "one-shot: " + showOut(one) + " / compiled: " + showOut(fresh)
+			}
 			return "", "", ""
 		}
 		ev := &ref.Ev{}
@@ -618,7 +625,8 @@ func predHistory(c Case) (r Result) {
 	return
 }
 
-var badExprs = []string{"'abc", "'a\\'b", "'x\\'y' 'zzz", "\"abc", "`1", "a # b", "'ok\\'' #", "a.", "a[", "a[0", "f(a,", "{a:", "a ||", "[?", "a[1:2:3:4]", "a b", "", "`{`", "\"\\x\"", "'q\\'r' . ", "a\u0080", "a[9223372036854775808]"}
+var badExprs = []string{"'abc", "'a\\'b", "'x\\'y' 'zzz", "\"abc", "`1", "a # b", "'ok\\'' #", "a.", "a[", "a[0", "f(a,", "{a:", "a ||", "[?", "a[1:2:3:4]", "a b", "", "`{`", "\"\\x\"", "'q\\'r' . ", "a\u0080", "a[9223372036854775808]",
+	"größe", "日本", "x٣", "é", "ǆ", "people.größe", "a-b", "a b", "1a", "$", "nums[1.0]", "nums[1e0]", "people[?name=]", "@@", "a..b", ".a", "a.", "[a", "`1`x", "'a'b", "\"a\"b"}
 
 func TestC13(t *testing.T) {
 	rapid.Check(t, func(t *rapid.T) {
@@ -685,6 +693,10 @@ func TestC13(t *testing.T) {
 			"oneshot": func(t *rapid.T) {
 				j := rapid.IntRange(0, len(h.origs)-1).Draw(t, "j")
 				do("oneshot", genE(t), fmt.Sprint(j))
+			},
+			"oneshotInvalid": func(t *rapid.T) {
+				j := rapid.IntRange(0, len(h.origs)-1).Draw(t, "j")
+				do("oneshot", badExprs[rapid.IntRange(0, len(badExprs)-1).Draw(t, "bad1")], fmt.Sprint(j))
 			},
 			"parseValid": func(t *rapid.T) {
 				do("parse", genE(t))
